@@ -27,6 +27,8 @@ def ort_session(model_proto):
     so = ort.SessionOptions()
     so.graph_optimization_level = ort.GraphOptimizationLevel.ORT_DISABLE_ALL
     so.log_severity_level = 4
+    so.intra_op_num_threads = 1
+    so.inter_op_num_threads = 1
     return ort.InferenceSession(model_proto.SerializeToString(), so, providers=["CPUExecutionProvider"])
 
 
